@@ -1,19 +1,27 @@
 /-
 C02 — Brotli decoding is exactly RFC 7932 (brotli.Reader).
 
-There is no Lean model of the Brotli format.  What is proved here concerns the
-components brotli.Reader shares with the modelled code; agreement with
-libbrotlidec is a differential sweep (family brd).  Property theorems only.
+`Compress.Brotli.Spec` is an executable reading of RFC 7932 (static dictionary as
+a parameter, loaded from /repo on every run), validated on every run against
+libbrotlidec AND brotli.Reader: verdict, output length and hash for every input of
+family brd, reject class on cuts of valid streams, and the 121 dictionary
+transforms against Go's transformWord.  There is no Go-shaped model of
+brotli.Reader's control flow, so unlike C01 there is no refinement theorem: the
+tie "brotli.Reader = specification" is a correspondence.  What is proved: the
+components brotli.Reader shares with modelled code, and sanity theorems that pin
+the specification's tables and its behaviour on the smallest streams.
+Property theorems only.
 -/
 import Compress.Proofs.Window
 import Compress.Proofs.BitIO
 import Compress.Proofs.PrefixTables
+import Compress.Proofs.BrotliSpec
 
 namespace Compress.Props.C02
 open Compress
 
 open Compress.Proofs.Window Compress.Window in
-/-- brotli's dictDecoder (the model covers both copies; brotli uses the variant without TryWriteCopy's fast path too): for every window size, every previous capacity and every legal sequence of literals and copies the bytes handed out are the append-only LZ77 output. -/
+/-- brotli's dictDecoder: for every window size, every previous capacity and every legal sequence of literals and copies the bytes handed out are the append-only LZ77 output. -/
 theorem C02_window (useTry : Bool) (size prevCap : Nat) (hs : 1 ≤ size) (ops : List Op)
     (hl : Legal size [] ops) :
     (runAll useTry size prevCap ops).1 = specRun [] ops :=
@@ -32,5 +40,39 @@ open Compress.Proofs.PrefixTables Compress Compress.Prefix in
 theorem C02_prefix_decoder (cs : List Code) (h : GoodCodes cs) (c : Code) (hc : c ∈ cs) (rest : Bits) :
     (Decoder.init cs).readSymbol (c.word ++ rest) = some (c.sym, rest) :=
   Compress.Proofs.PrefixTables.decoder_readSymbol cs h c hc rest
+
+open Compress.Brotli.Proofs Compress Compress.Brotli in
+/-- specification: the empty input is an unexpected end, not a stream. -/
+theorem C02_spec_empty (dict : ByteArray) : decode dict [] = ⟨#[], .unexpectedEOF⟩ :=
+  Compress.Brotli.Proofs.decode_nil dict
+
+open Compress.Brotli.Proofs Compress Compress.Brotli in
+/-- specification: the one-byte stream 0x06 (ISLAST, ISLASTEMPTY) is complete with empty output, whatever follows it and whatever the dictionary. -/
+theorem C02_spec_last_empty (dict : ByteArray) (trailing : List UInt8) :
+    decode dict (0x06 :: trailing) = ⟨#[], .ok 8⟩ :=
+  Compress.Brotli.Proofs.decode_lastEmpty dict trailing
+
+open Compress.Brotli.Proofs Compress Compress.Brotli in
+/-- specification: the reserved WBITS pattern is rejected. -/
+theorem C02_spec_reserved_wbits (dict : ByteArray) (trailing : List UInt8) :
+    decode dict (0x11 :: trailing) = ⟨#[], .corrupt⟩ :=
+  Compress.Brotli.Proofs.decode_reservedWindowBits dict trailing
+
+open Compress.Brotli.Proofs Compress Compress.Brotli in
+/-- the transform table has the 121 entries of RFC 7932 appendix B. -/
+theorem C02_spec_transforms  : transforms.size = 121 :=
+  Compress.Brotli.Proofs.transforms_size 
+
+open Compress.Brotli.Proofs Compress Compress.Brotli in
+/-- the word-length tables account for exactly the 122,784 bytes of the static dictionary. -/
+theorem C02_spec_dictionary_layout  : doffset 24 + 24 * nwords 24 = 122784 :=
+  Compress.Brotli.Proofs.doffset_last 
+
+open Compress.Brotli.Proofs Compress Compress.Brotli in
+/-- a compressed meta-block evaluated by the kernel (cross-checked with libbrotlidec). -/
+theorem C02_spec_compressed_example  :
+    decode .empty [0x1b, 0x11, 0x00, 0x00, 0x24, 0xc3, 0xc4, 0xc6, 0x42, 0x9b, 0x20, 0xd2]
+      = ⟨#[97, 98, 99, 97, 98, 99, 97, 98, 99, 97, 98, 99, 97, 98, 99, 97, 98, 99], .ok 96⟩ :=
+  Compress.Brotli.Proofs.decode_compressed_abc 
 
 end Compress.Props.C02
